@@ -15,6 +15,7 @@ def _init(mode):
     from mc import load
     load.setup(mode)
     sys.stdout = open(os.devnull, 'w')      # the library prints diagnostics; checkers are captured explicitly
+    sys.stderr = open(os.devnull, 'w')      # ANTLR error listeners write to stderr; crashes are returned as values
 
 
 def _resolve(name):
